@@ -43,16 +43,17 @@ type stateChange struct{ Old, New model.StateOfDatatype }
 
 // dtState is one datatype object held by an actor, with what its handlers reported.
 type dtState struct {
-	key    string
-	kind   string
-	mode   string
-	dt     iface.Datatype
-	pub    orda.Datatype
-	mu     sync.Mutex
-	chg    []stateChange
-	errs   []string
-	rops   []string // ids of remote operations reported, in order
-	nLocal int
+	key             string
+	kind            string
+	mode            string
+	dt              iface.Datatype
+	pub             orda.Datatype
+	mu              sync.Mutex
+	chg             []stateChange
+	errs            []string
+	rops            []string // ids of remote operations reported, in order
+	nLocal          int
+	nLocalSinceOpen int
 }
 
 type actor struct {
@@ -69,6 +70,7 @@ type actor struct {
 	syncing    int
 	syncErrs   []string
 	connected  bool
+	synced     bool
 }
 
 type world struct {
@@ -99,6 +101,7 @@ func init() {
 
 func newWorld(t *testing.T, seed uint64) *world {
 	w := &world{t: t, seed: seed, uid: kernel.NewRng(seed).Derive("uids"), lat: kernel.NewRng(seed).Derive("latency"), start: time.Now()}
+	simmongo.ResetOwners()
 	w.store = simmongo.NewStore(time.Now)
 	w.mongo = simmongo.NewServer(w.store)
 	w.br = newBroker()
